@@ -392,3 +392,64 @@ def c01_2n(run):
     run.reached('native demonstration executed')
     if v.get('reproduced') is None:
         run.cur.notes.append('native demonstration of F7 could not be run: ' + str(v.get('error'))[-300:])
+
+
+# ----------------------------------------------------------------------------------------------------------------- C01-6
+@obligation('C01', 'C01-6 add_fee_to_block_fees (real body): the per-asset block-fee total grows by exactly the fee, never wraps or saturates (overflow is an error that stores nothing), other assets\' totals are untouched')
+def c01_6(run):
+    cfg = {}
+
+    def h_get(ctx):
+        ctx.st.log.append(('object_get', 'block_fees'))
+        pre = cfg['pre']
+        if pre is None:
+            return [(None, none())]
+        return [(None, some(M.new_map('HashMap<IbcPrefixed, u128>', list(pre))))]
+
+    def h_put(ctx):
+        v = ctx.ex.deref_val(ctx.st, ctx.args[2])
+        ctx.st.log.append(('object_put', 'block_fees', [(ctx.ex.deref_val(ctx.st, k), ctx.ex.deref_val(ctx.st, x)) for k, x in v.attrs['items']]))
+        return [(None, ())]
+    hooks = [(re.compile(r'StateRead>::object_get::<HashMap<.*IbcPrefixed, u128>>$'), h_get), (re.compile(r'StateWrite>::object_put::<HashMap<.*IbcPrefixed, u128>>$'), h_put)]
+    ex, W = A.engine(extra_hooks=hooks)
+    W.m_add_fee_to_block_fees = None          # execute the real provided method instead of the chain-state model's list
+    cands = [n for n in ex.fns if n.endswith('StateWriteExt::add_fee_to_block_fees') and n.startswith('fees::')]
+    if len(cands) != 1:
+        raise Inconclusive(f'fees::state_ext::StateWriteExt::add_fee_to_block_fees not found: {cands}')
+    for a_ in COMMON_ASSUME:
+        run.assume(a_)
+    run.bound(block_fees='absent, or a map with one entry for the same asset, for another asset, or for both', fee='all u128', asset='arbitrary')
+    from mirsym.engine import none, some
+    n_ok = n_err = 0
+    asset_obj = Obj('astria_core::primitive::v1::asset::Denom')
+    for shape in ('absent', 'same', 'other', 'both'):
+        asset = z3.BitVec('fee_asset', 256); other = z3.BitVec('other_asset', 256); cur = z3.BitVec('current_total', 128); oth = z3.BitVec('other_total', 128); amt = z3.BitVec('fee_amount', 128)
+        cfg['pre'] = {'absent': None, 'same': [(asset, cur)], 'other': [(other, oth)], 'both': [(other, oth), (asset, cur)]}[shape]
+        a0 = Obj('astria_core::primitive::v1::asset::IbcPrefixed'); a0.attrs['asset_id'] = asset
+        st = ex.start(cands[0], [B.cell(Obj('S', kind='cell')), B.cell(a0), amt, z3.BitVec('position', 64)], world=dict(initial_world()))
+        st.pc.append(asset != other)
+        for i, p in enumerate(run.explore(ex, st, allow_havoc=(r'^Arguments::|fmt::', r'Event::new', r'to_string', r'full_name', r'snake_case_name'))):
+            lab = f'[block fees {shape}, path {i}]'
+            if p.kind != 'return':
+                run.prove(f'no panic {lab}', p.pc, z3.BoolVal(False), detail=p.info); continue
+            puts = [e for e in p.log if e[0] == 'object_put']
+            res = p.result.discr
+            old = cur if shape in ('same', 'both') else z3.BitVecVal(0, 128)
+            run.sample({'shape': shape, 'path': i, 'result': res, 'puts': len(puts)})
+            if res == 'Ok':
+                n_ok += 1
+                claim = [z3.BoolVal(len(puts) == 1), z3.BVAddNoOverflow(old, amt, False)]
+                if puts:
+                    items = puts[0][2]
+                    mine = [v for k, v in items if z3.is_expr(k) and str(k) == 'fee_asset']
+                    theirs = [v for k, v in items if z3.is_expr(k) and str(k) == 'other_asset']
+                    claim += [z3.BoolVal(len(mine) == 1 and len(items) == (2 if shape in ('other', 'both') else 1)), mine[0] == old + amt if mine else z3.BoolVal(False)]
+                    if shape in ('other', 'both'):
+                        claim.append(theirs[0] == oth if theirs else z3.BoolVal(False))
+                run.prove(f'Ok => stored total of this asset = old total + fee without wrap-around; totals of other assets unchanged {lab}', p.pc, z3.And(*claim))
+            else:
+                n_err += 1
+                run.prove(f'Err => old total + fee does not fit in u128, and nothing was stored {lab}', p.pc, z3.And(z3.Not(z3.BVAddNoOverflow(old, amt, False)), z3.BoolVal(not puts)))
+    if not n_ok or not n_err:
+        raise Inconclusive(f'vacuity: ok {n_ok}, err {n_err}')
+    run.require_reached(*run.cur.reach)
